@@ -279,7 +279,7 @@ def run_analysis(name, m, a, rng_seed):
         method = a.get("method", "fba")
         out = {}
         for _, row in df.iterrows():
-            out[",".join(sorted(row["ids"]))] = [row["status"], rnd(float(row["growth"])) if method in ("fba", "linear moma") else None]
+            out[",".join(sorted(row["ids"]))] = [row["status"], rnd(float(row["growth"])) if method == "fba" else None]     # growth at a MOMA / ROOM optimum is not unique
         return out
     if name == "production_envelope":
         ex = [r.id for r in m.exchanges] or rids
